@@ -95,12 +95,20 @@ impl Parser {
                 return self.parse_impl(cursor, payload);
             }
 
+            // if a previous call already consumed the start of the candidate frame (the parser
+            // is past FindSync1), the first byte of this call is not the byte that failed
+            let started_at_sync1 = matches!(self.state, ParseState::FindSync1);
+
             let res = cursor.transaction(|cur| self.parse_impl(cur, payload));
 
             match res {
                 Ok(x) => return Ok(x),
                 Err(_) => {
-                    let _ = cursor.read_u8(); // advance one byte
+                    if started_at_sync1 {
+                        let _ = cursor.read_u8(); // advance one byte
+                    }
+                    // otherwise rescan from the first byte of this call, which might
+                    // be the start of a valid frame
                     self.reset();
                     // goto next iteration
                 }
